@@ -4,3 +4,15 @@ pub proof fn vx_canary_rt_ok(f: &NarseseFormat<&str>, l: Lay)
 {
     assert(false); // must fail (C01 hypothesis)
 }
+/// ... and for the sentence-level hypothesis (a goal on a compound)
+pub proof fn vx_canary_rt_sent_ok(f: &NarseseFormat<&str>, l: Lay)
+    requires format_wf(f), rt_sent_ok(f, l, 1), l is Compound
+{
+    assert(false); // must fail (C01 sentence hypothesis)
+}
+/// ... and for a question on a statement with the present tense
+pub proof fn vx_canary_rt_sent3_ok(f: &NarseseFormat<&str>, l: Lay)
+    requires format_wf(f), rt_sent3_ok(f, l, 2, 2), l is Stmt
+{
+    assert(false); // must fail (C01 tense hypothesis)
+}
